@@ -442,7 +442,8 @@ def _r3(ctx):
                             if gg and isinstance(b, Const) and b.value == '$':
                                 return gg[1]
                     return None
-                ok = marker_group(ra) == 3 and marker_group(ca) == 1
+                from .c19 import _marker_is
+                ok = (marker_group(ra) == 3 or _marker_is(ra, 3, o.notes)) and (marker_group(ca) == 1 or _marker_is(ca, 1, o.notes))
                 why = 'row.is_absolute=%r col.is_absolute=%r' % (ra, ca)
         res.ob('R3', site, 'cell payload on trace %s' % len(o.notes), ok, why)
         if not ok:
